@@ -263,7 +263,7 @@ macro_rules | `(tactic| req_peel) => `(tactic| first
   | (guard_mk; with_reducible apply ReqOk.withStoreRemoveLeak)
   | (with_reducible apply ReqOk.modStream'; (· intro _; rfl)))
 macro "req_auto" : tactic => `(tactic| repeat' (first
-  | with_reducible assumption | (guard_not_mk; req_peel) | req_peel | split | dsimp only))
+  | with_reducible assumption | (guard_not_mk; req_peel) | (guard_mk; req_peel) | split | dsimp only))
 
 theorem ReqOk.decNumStreams {s : Streams} (h : ReqOk s) (id : Nat) : ReqOk (s.decNumStreams id) := by
   unfold Streams.decNumStreams; dsimp only; req_auto
